@@ -10,58 +10,58 @@ CHECKS = {
          "Every history of <=4 (quick) / <=6,5 (thorough) operations over the prefix-sharing key set, with a Dump->Load round trip at every position, is executed against the real topics.Store and subscriptions.Tree and compared with a map after the history; seeded histories add empty-level and wildcard keys. Exhaustive for the stated bound, sampling beyond it.",
          "Trusts the Go runtime and the harness's 60-line map model; values are opaque non-empty byte strings.", "5/C19"),
  "C06": ("exploration", "shadow-set monitor over the real allocator: breadth-first exploration of all reachable allocator states for small ranges + seeded long histories",
-         "All allocator states reachable for ranges of width 1-8 (quick) / 1-11 (thorough) are explored on the real allocator by executing every Get/Put(x) from every reached state and checking each return value and the free list against a shadow set; seeded histories of 10^5-10^6 calls cover the production range and drive mid-size ranges to exhaustion; writer-level scenarios with an 8-identifier pool, slow acknowledgers, exhaustion held for 900 ms, session end and an injected write failure; a concurrent Get/Put part. Complete for the small ranges, sampling beyond.",
+         "All allocator states reachable for ranges of width 1-8 (quick) / 1-11 (thorough) are explored on the real allocator by executing every Get/Put(x) from every reached state and checking each return value and the free list against a shadow set; seeded histories of 10^5-10^6 calls cover the production range and drive mid-size ranges to exhaustion; writer-level scenarios with an 8-identifier pool, slow acknowledgers, exhaustion held for 900 ms, session end and an injected write failure; fan-out scenarios (one publish to 2-4 QoS 1 sessions, node-wide uniqueness of unacknowledged identifiers, out-of-order acknowledgements); acknowledgements racing back-to-back sweeps (an identifier is released by exactly one of the two); a concurrent Get/Put part. Complete for the small ranges, sampling beyond.",
          "Hook H1 exposes the unexported allocator and its free intervals; exhaustion value is any value outside [min,max].", "5/C06"),
  "C04": ("exploration", "reference-model monitor (map of in-flight entries with deadlines) over seeded operation histories on the real ack.Queue and both expiration.List implementations; exactly-once outcome counting under concurrent stress",
-         "Seeded sequential histories (session names and identifiers whose concatenations coincide) with colliding deadlines (equal, same second, past, future), wrong-type and unknown acknowledgements, duplicate registrations and self re-arming callbacks are executed on the real queue; every callback is compared with a map model (one-second band for deadlines) and after final sweeps every registration must have exactly one outcome. The List interface is checked alone for both implementations, and exactly-once is re-checked with 8-16 goroutines and a concurrent sweeper.",
+         "Seeded sequential histories (session names and identifiers whose concatenations coincide) with colliding deadlines (equal, same second, past, future), wrong-type and unknown acknowledgements, duplicate registrations and self re-arming callbacks are executed on the real queue; every callback is compared with a map model (one-second band for deadlines) and after final sweeps every registration must have exactly one outcome. The List interface is checked alone for both implementations, and exactly-once is re-checked with 8-16 goroutines and a concurrent sweeper, and with acknowledgements racing the sweep of the very second their deadlines fall into.",
          "Hook H4 exposes both list constructors. Deadlines are synthetic (no wall clock). Concurrency coverage is what the scheduler produced in the run.", "5/C04"),
  "C08": ("exploration", "reference-model monitor (LWW element set) over exhaustively enumerated delivery schedules into real replicas, plus seeded multi-origin scenarios with offset clocks",
-         "Part A delivers every update list of <=4 (quick) / <=5 (thorough) add/remove updates over same and neighbouring keys, in every order, with every prefix re-delivered and every batching, to fresh real replicas through NotifyMsg and compares the listings with a reference LWW set (complete for that bound). Timestamps have the magnitude of UnixNano values and lie 3 ns apart. A concurrent part races a node's own writes on one topic with merges of ahead-stamped peer updates. Part B lets three real origin nodes with clocks offset by +-10 s issue real mutator calls with partial gossip and checks that origins and shuffled/duplicated/batched followers equal the LWW reference over the captured broadcasts.",
+         "Part A delivers every update list of <=4 (quick) / <=5 (thorough) add/remove updates over same and neighbouring keys, in every order, with every prefix re-delivered and every batching, to fresh real replicas through NotifyMsg and compares the listings with a reference LWW set (complete for that bound). Timestamps have the magnitude of UnixNano values and lie 3 ns apart. A concurrent part races a node's own writes on one topic with merges of ahead-stamped peer updates, and merges eight updates of one key from eight goroutines at once. Part B lets three real origin nodes with clocks offset by +-10 s issue real mutator calls with partial gossip and checks that origins and shuffled/duplicated/batched followers equal the LWW reference over the captured broadcasts.",
          "Hook H3 sets the package clock (single goroutine for part B). Timestamps distinct per key; exact ties are counted and give no verdict. Visible state compared on identity, value fields and LastAdded.", "5/C08"),
  "C09": ("exploration", "follower-equality monitor after every mutator call on a real node; exhaustive short call sequences plus seeded long ones",
-         "After each real mutator call on node A (all sequences of <=4/<=5 calls over a 14-call alphabet including every bulk removal, and seeded sequences of 5-30 calls) the broadcasts A queued are delivered to a follower, which must then list exactly what A lists; a call that changes A's listing without queuing a broadcast is a violation. A third of the seeded sequences leave broadcasts queued across 2-4 calls; part C repeats retained-message changes under a clock that does not advance between calls.",
+         "After each real mutator call on node A (all sequences of <=4/<=5 calls over a 15-call alphabet including every bulk removal, and seeded sequences of 5-30 calls) the broadcasts A queued are delivered to a follower, which must then list exactly what A lists; a call that changes A's listing without queuing a broadcast is a violation. A third of the seeded sequences leave broadcasts queued across 2-4 calls; part C repeats retained-message changes under a clock that does not advance between calls; part D runs every sequence of <=3 calls with an audit sink that fails.",
          "Single clock domain (hook H3 counter). Follower equality is on the exported listings.", "5/C09"),
  "C10": ("exploration", "reference-model monitor (per-node LWW maps incl. tombstones) around real LocalState/MergeRemoteState exchanges after lossy gossip",
-         "Seeded pairs of real node histories with 0-100% of the gossip between them lost for good, followed by a real snapshot exchange A->B, B->A, both ways or into a fresh node; the receiver's listing must equal the visible part of the LWW merge of both nodes' entries (removals included), a fresh node must list what the sender lists, and after both directions the nodes agree.",
+         "Seeded pairs of real node histories with 0-100% of the gossip between them lost for good, followed by a real snapshot exchange A->B, B->A, both ways or into a fresh node; the receiver's listing must equal the visible part of the LWW merge of both nodes' entries (removals included), a fresh node must list what the sender lists, and after both directions the nodes agree; retained histories under coarse clocks (advancing every 2-4 calls, never equal on the two nodes) must agree after exchanging both ways.",
          "Per-node reference built from the broadcasts each node issued/received (relies on C09). Ties give no verdict.", "5/C10"),
  "C16": ("exploration", "table-lookup oracle over exhaustively enumerated credential files loaded by the real FileHandler, plus end-to-end CONNECTs",
-         "Every credential file of <=3 (quick) / <=4 (thorough) distinct users in every order with 2-field, 3-field and empty-mount-point lines (complete), seeded files of 4-6 entries, and the static handler (incl. candidates that split user+password elsewhere) are loaded by the real code; every present, wrong, swapped, absent and empty candidate is authenticated and compared with an exact table lookup including the mount point.",
+         "Every credential file of <=3 (quick) / <=4 (thorough) distinct users in every order with 2-field, 3-field and empty-mount-point lines (complete), seeded files of 4-6 entries, and the static handler (incl. candidates that split user+password elsewhere) are loaded by the real code; the empty store is a table too; every present, wrong, swapped and empty candidate and ten absent users with every stored password are authenticated and compared with an exact table lookup including the mount point.",
          "Second field of a line = hex SHA-256 of the password. User names distinct and CSV-safe.", "5/C16"),
  "C01": ("exploration", "reference-matcher oracle (MQTT 3.1.1 4.7 on level arrays) over exhaustively enumerated filter x topic pairs on the real trie, seeded histories on the replicated index, and end-to-end delivery multisets behind a sentinel barrier",
-         "Trie: every valid filter of <=4 levels over {a,b,c,+,#,''} against every topic of <=4 levels over {a,b,c,''} (complete), filter sets reached by different orders and subscribe/unsubscribe/re-subscribe histories (all pairs in thorough). Index: ByPattern after every step of seeded Create/Delete histories. End to end: per-session multisets of uniquely tagged publishes compared with one-copy-per-matching-filter after a causal barrier.",
+         "Trie: every valid filter of <=4 levels over {a,b,c,+,#,''} against every topic of <=4 levels over {a,b,c,''} (complete), filter sets reached by different orders and subscribe/unsubscribe/re-subscribe histories (all pairs in thorough). Index: ByPattern after every step of seeded Create/Delete histories, then at a node that joins by full-state exchange and after an echoed exchange and a second delivery of every broadcast; Iterate must list exactly the active set. End to end: per-session multisets of uniquely tagged publishes compared with one-copy-per-matching-filter after a causal barrier.",
          "Reference matcher is the spec, not the code. '$' topics and the empty string are outside the alphabets. Subscribers use QoS 0 end to end so no retransmissions need discounting.", "5/C01"),
  "C02": ("exploration", "unique-tag conservation monitor at the client boundary over long publish streams against a broker node with the real on-disk commit log, behind a sentinel barrier",
          "2200 (quick) / 6000 (thorough) uniquely tagged, content-hashed messages from concurrent publishers cross the first log offset, segment rolls and the truncation point; further streams run after node restarts on the same data directory, with an inbound/outbound packet-identifier collision, with a QoS 2 subscriber that withholds PUBCOMP (overlapping deliveries), with retained empty-payload publishes, with a co-recipient whose connection rejects writes, and with a subscriber that joins between two publishes on one topic; every acknowledged QoS>=1 publish must reach every subscriber that stayed connected, intact.",
          "Duplicates allowed, QoS 0 publishes exempt. Barrier relies on per-publisher ordering and the FIFO log consumer/writer.", "5/C02"),
  "C07": ("exploration", "reference-model monitor (map topic -> last retained payload, filtered by the MQTT matcher) at store level for every filter, and at the client boundary between SUBACK and a two-stage barrier",
-         "Store level: after seeded Set/Delete histories on the real replicated retained store, Get(filter) is compared with the model for every valid filter of <=4 levels over the alphabet (complete per history). A second replica fed in order / reversed / shuffled / by full-state exchange, and two nodes with clocks 7 s apart, must answer like the model too. End to end: histories of retained publishes, clears and subscribes on one node and on a second node after in-order, reversed or lost-and-repaired replication; each new subscription must get exactly one retain-flagged copy per matching model topic with the latest payload, cleared topics nothing, standing subscribers unflagged live copies.",
+         "Store level: after seeded Set/Delete histories on the real replicated retained store, Get(filter) is compared with the model for every valid filter of <=4 levels over the alphabet (complete per history). A second replica fed in order / reversed / shuffled / by full-state exchange, two nodes with clocks 7 s apart, and two nodes with one clock whose gossip arrives 0-3 writes late (a clear may overtake the publish it clears), must answer like the model too. End to end: histories of retained publishes, clears and subscribes on one node and on a second node after in-order, reversed or lost-and-repaired replication; each new subscription must get exactly one retain-flagged copy per matching model topic with the latest payload, cleared topics nothing, standing subscribers unflagged live copies; a SUBSCRIBE repeated for a filter the session already holds is answered with the replay again.",
          "One filter per SUBSCRIBE. Publishes wait for PUBACK and for the standing subscriber's live copy before the next step (recipients are resolved when the writer handles a message).", "5/C07"),
  "C03": ("exploration", "trace-specification monitor over packets written to subscriber pipes, driven by forced expiry sweeps and scripted client replies",
-         "Seeded response scripts (acknowledge in round k or never, QoS 2 two-stage, wrong-type and unknown-identifier replies, session end) over 1-4 in-flight deliveries on 1-3 sessions; after every forced sweep and PINGRESP barrier each delivery is checked against the retransmission specification (>=1+k copies with the same identifier and QoS, PUBREL stage, nothing after completion, identifier back in the pool and not before, identifiers freed after session end); one message may have several recipients with different QoS; real-time scenarios without forced sweeps require >=3 copies in 11 s from the broker's own ticker.",
+         "Seeded response scripts (acknowledge in round k or never, QoS 2 two-stage, wrong-type and unknown-identifier replies, session end) over 1-4 in-flight deliveries on 1-3 sessions; after every forced sweep and PINGRESP barrier each delivery is checked against the retransmission specification (>=1+k copies with the same identifier and QoS, PUBREL stage, nothing after completion, identifier back in the pool and not before, identifiers freed after session end); one message may have several recipients with different QoS; sessions end by connection loss or by displacement; PUBACKs racing back-to-back sweeps must end either released-and-silent or still-allocated-and-retransmitted, never both; real-time scenarios without forced sweeps require >=3 copies in 11 s from the broker's own ticker.",
          "The harness owns the ack.Queue and calls Expire with synthetic future times; hook H1 reads the pool's free list. Lower bounds only (the 1 s ticker may add copies).", "5/C03"),
  "C05": ("fault_enumeration", "ordering monitor over one global sequence counter (log Append call/return, RPC call/return, client packet reads) with enumerated write-failure positions and a gated log",
-         "For each seeded packet sequence every single fault position (k-th local write, each remote node unreachable, each remote log rejecting; combinations in thorough) is executed on a fresh 1-3 node cluster; an acknowledgement must be read only after a successful Append returned on every node and never when a write failed; log offers per tag must equal completed PUBLISH->PUBREL handshakes. Gated scenarios make 'acknowledged while the write is blocked' observable independently of machine speed; identifier-reuse scenarios place a sweep between two exchanges' deadlines; a second client holds unreleased publishes with the same identifiers; unreachable peers fail with the cluster library's own error values.",
+         "For each seeded packet sequence every single fault position (k-th local write, each remote node unreachable, each remote log rejecting; combinations in thorough) is executed on a fresh 1-3 node cluster; an acknowledgement must be read only after a successful Append returned on every node and never when a write failed; log offers per tag must equal completed PUBLISH->PUBREL handshakes. Gated scenarios make 'acknowledged while the write is blocked' observable independently of machine speed; identifier-reuse scenarios place a sweep between two exchanges' deadlines; a second client holds unreleased publishes with the same identifiers; unreachable peers fail with the cluster library's own error values; a reply lost after the peer appended must not lead to a second append.",
          "Failures are injected at the messageLog and RPC transport interfaces (the boundaries the property names). Every node hosts a matching subscriber.", "5/C05"),
  "C14": ("fault_enumeration", "conservation monitor over per-node Append records, RPC records, PUBACKs and subscriber packets for every subset of unreachable destination nodes",
-         "Seeded placements over 2-3 nodes joined by real gRPC over bufconn; for every topic, publisher and every subset of unreachable nodes one tagged publish (QoS 1 and 2 alternating), odd placements after full-state exchanges between all nodes; unreachable peers fail with the cluster library's own error values; in a fifth of the cases the publisher node's own log rejects the write (the other destinations must still be served); appends per node and tag, deliveries per subscriber and filter and the presence of the acknowledgement are compared with the placement-derived expectation after a sentinel barrier.",
+         "Seeded placements over 2-3 nodes joined by real gRPC over bufconn; for every topic, publisher and every subset of unreachable nodes one tagged publish (QoS 1 and 2 alternating), odd placements after full-state exchanges between all nodes; unreachable peers fail with the cluster library's own error values; in a fifth of the cases the publisher node's own log rejects the write (the other destinations must still be served); in a quarter the reply of a reachable destination is lost once after it appended (still exactly one append and delivery); a subscriber that unsubscribes between publishes on one topic gets none of the later ones; appends per node and tag, deliveries per subscriber and filter and the presence of the acknowledgement are compared with the placement-derived expectation after a sentinel barrier.",
          "Unreachability is injected at the transport's Call boundary. Gossip barrier before publishing.", "5/C14"),
  "C11": ("exploration", "state-predicate monitors over every node's listings and registries plus client-side EOF/PINGRESP observation, per termination cause; client-measured idle gaps for the no-spurious-end part",
-         "Eleven termination causes (incl. displacement followed by the newer session leaving, an outbound write failure at SUBACK through a fault-injecting connection, and displacement followed by the old host's failure) x subscription sets x 1-3 nodes with a running gossip pump: EOF at the client, absence of the session record, its subscriptions and its registry entry on every node (polled <=10 s), nothing written to the ended session afterwards, and at quiescence the dangling-subscription invariant. Idle clients within 0.8 x keep-alive (measured by the client itself) must still be answered.",
+         "Twelve termination causes (incl. a CONNACK that cannot be written, displacement followed by the newer session leaving, an outbound write failure at SUBACK through a fault-injecting connection, and displacement followed by the old host's failure) x subscription sets x 1-3 nodes with a running gossip pump: EOF at the client, absence of the session record, its subscriptions and its registry entry on every node (polled <=10 s), nothing written to the ended session afterwards, and at quiescence the dangling-subscription invariant. Idle clients within 0.8 x keep-alive (measured by the client itself) must still be answered.",
          "Wall-clock waits are real (keep-alive, the 3 s node-failure delay); scenarios whose measured gaps exceed the bound give no verdict.", "5/C11"),
  "C12": ("exploration", "schedule-controlled takeover scenarios (gossip pump and hook gates) with state-resolution and client-side monitors",
-         "Full grid of pairs (placement x displaced session's event x timing incl. the two hook points between delete/create and lookup/delete) and seeded chains of three; every node must resolve the identifier to the newest session, the displaced session's PINGREQ must go unanswered and its connection be closed, and the newest session's record, subscription and deliveries must survive the old one's teardown; a bystander node receives the scenario's gossip in reverse order; a seeded half of all gossip is re-delivered late; the zero-length client identifier is used too; the newer session may also leave first.",
+         "Full grid of pairs (placement x displaced session's event x timing incl. the three hook points: between lookup and removal of the earlier record, between removal and creation, and inside the old session's teardown) and seeded chains of three; every node must resolve the identifier to the newest session, the displaced session's PINGREQ must go unanswered and its connection be closed, and the newest session's record, subscription and deliveries must survive the old one's teardown; a bystander node receives the scenario's gossip in reverse order; a seeded half of all gossip is re-delivered late; the zero-length client identifier is used too; the newer session may also leave first.",
          "Hook H2 gates block the accepting / tearing-down goroutine at the named points; session ids are made predictable by the harness's authentication handler.", "5/C12"),
  "C13": ("exploration", "unique-tag delivery monitor at watcher clients on every node, per termination cause, behind a sentinel barrier",
-         "Seven termination causes (incl. connection loss between CONNECT and CONNACK; node failure noticed by the survivors one after the other; zero-length will messages) and connection loss inside the client's own re-CONNECT window (hook gate) x will QoS/retain/topic x placement over 1-3 nodes; every matching watcher on a surviving node must receive the will exactly once on the client's topic, nobody after DISCONNECT, non-matching watchers nothing.",
+         "Eight termination causes (incl. connection loss between CONNECT and CONNACK; a session that connects and disconnects inside one gossip interval before its host fails; node failure noticed by the survivors one after the other; zero-length will messages) and connection loss inside the client's own re-CONNECT window (hook gate) x will QoS/retain/topic x placement over 1-3 nodes; every matching watcher on a surviving node must receive the will exactly once on the client's topic, nobody after DISCONNECT, non-matching watchers nothing.",
          "A stray will after the barrier would be missed (publish workers are unordered).", "5/C13"),
  "C17": ("exploration", "non-interference monitor: every message carries its tenant in the tag; all packets read by every client of every tenant are compared after per-tenant barriers",
-         "2-3 tenants (one mount point a prefix of another) x wildcard, tenant-looking and leading-slash filters/topics x shared client identifiers x publish (QoS 1 and 2) / retained / will (connection loss and node failure); no client may hold another tenant's tag, own-tenant deliveries must match the filter with byte-identical topics, shared-identifier sessions must stay served.",
+         "2-3 tenants (one mount point a prefix of another) x wildcard, tenant-looking and leading-slash filters/topics x shared client identifiers x publish (QoS 1 and 2) / retained / will (connection loss and node failure); no client may hold another tenant's tag, own-tenant deliveries must match the filter with byte-identical topics, shared-identifier sessions must stay served, also through overlapping QoS 2 handshakes that use the same packet identifier.",
          "Mount point = user name through the harness's authentication handler.", "5/C17"),
  "C18": ("exploration", "structure-aware mutation corpus sent to a broker in a child process; crash = child death (reported by the parent with the logged hex), liveness = witness clients' PINGRESP and tagged round trips",
          "About 1900 (quick) / 21000 (thorough) hostile streams incl. truncation at every offset, type/flag nibble sweeps, remaining-length and length-prefix corruption, protocol violations and seeded havoc, each on a fresh connection; forced expiry sweeps after every batch flush what the hostile sessions left in flight; 24 silent connections stay open throughout and a late client must still be admitted and served; two witness clients must stay connected, answer pings and complete publish/receive round trips.",
          "A client that stops reading is out of scope. Attribution of a crash is to the last logged streams.", "5/C18"),
  "C15": ("fault_enumeration", "offline checker over per-incarnation event logs of real consumer processes killed (SIGKILL to self) at exact hook points",
-         "Chains of separate processes consume one on-disk log; each but the last is killed at one of four points of Consume (and inside the callback, from the recording writer) for offsets around batch edges, segment rolls and the truncation point, incl. a consumer far behind the head of a 3100-entry log clean stops on an empty log, and a scheduler that stalls for 0.9 s (and gives up if its context ends, as the real writer does), or cancelled after N hand-overs, with appends in between; the logs must show contiguous hand-over with the right payloads, restart at c+1 (or at c after a kill: the message in flight), and every appended offset handed over.",
+         "Chains of separate processes consume one on-disk log; each but the last is killed at one of four points of Consume (and inside the callback, from the recording writer) for offsets around batch edges, segment rolls and the truncation point, incl. a consumer far behind the head of a 3100-entry log clean stops on an empty log, and a scheduler that stalls for 0.9 s (and gives up if its context ends, as the real writer does), or cancelled after N hand-overs, with appends in between; every tenth message has a zero-length payload; the logs must show contiguous hand-over with the right payloads, restart at c+1 (or at c after a kill: the message in flight), and every appended offset handed over.",
          "Hook H5 (points) and a recording Writer hook. SIGKILL never interrupts an append (appends concurrent with consumption only in cancelled incarnations).", "5/C15"),
  "C20": ("exploration", "Go race detector over seven repeated stress workloads, each with its own oracle (porcupine linearizability for the registry, shadow set, exactly-once counting, LWW reference, conservation)",
          "Race-detector build; any report is a violation (de-duplicated by outermost frame pair). Workloads: registry (porcupine, per-key register), identifier pool, in-flight table with sweeper, both tries incl. stores rebuilt by Load, replicated state with concurrent merges, a merge race in which every update of one key is merged exactly once at the same moment, a session's filter list, a two-node broker storm with forced sweeps and push/pull, and the lifecycle / takeover / will / tenant / retransmission / cross-node scenarios of the other checks re-run under the detector.",
